@@ -173,7 +173,7 @@ def check_case(case, acc):
 def _enum_cases(max_nodes, index, count):
     k = 0
     for shape in shapes.trees_upto(max_nodes):
-        for cls in ("Node", "SlotLM"):
+        for cls in ("Node", "SlotLM", "SymlinkNode"):
             k += 1
             if k % count == index:
                 yield {"kind": "shape", "shape": forest.to_list(shape), "cls": cls, "via": "parent" if k % 2 else "children"}
@@ -214,4 +214,4 @@ def run_task(task, acc):
 
 
 def evidence_extra(total, tier):
-    return {"exhaustive_subdomain": "every node of every ordered tree shape with <= %d nodes, for Node and a slotted LightNodeMixin class" % (7 if tier == "quick" else 9)}
+    return {"exhaustive_subdomain": "every node of every ordered tree shape with <= %d nodes, for Node, a slotted LightNodeMixin class and SymlinkNode (links whose targets sit elsewhere)" % (7 if tier == "quick" else 9)}
